@@ -20,6 +20,7 @@ import (
 	"os/exec"
 	"path/filepath"
 	"regexp"
+	"runtime"
 	"runtime/debug"
 	"sort"
 	"strconv"
@@ -315,7 +316,20 @@ func Main(t *testing.T, chk *Check) {
 	parentMain(t, chk, tier, seed, budget)
 }
 
+// applyWorkerProcs makes the parent / replay process use the same GOMAXPROCS as the workers: schedule
+// explorations order goroutines spawned by repo code by goroutine id, which equals creation order only with one P.
+func applyWorkerProcs(chk *Check) {
+	for _, e := range chk.WorkerEnv {
+		if strings.HasPrefix(e, "GOMAXPROCS=") {
+			if n, err := strconv.Atoi(strings.TrimPrefix(e, "GOMAXPROCS=")); err == nil && n > 0 {
+				runtime.GOMAXPROCS(n)
+			}
+		}
+	}
+}
+
 func replayMain(t *testing.T, chk *Check, tier string, seed int64, path string) {
+	applyWorkerProcs(chk)
 	raw, err := os.ReadFile(path)
 	if err != nil {
 		fmt.Println("replay: cannot read", path, err)
@@ -508,6 +522,7 @@ func parentMain(t *testing.T, chk *Check, tier string, seed int64, budget time.D
 	states := m.StatesN + int64(len(st))
 
 	// confirm each violation class by replaying 5x
+	applyWorkerProcs(chk)
 	known := loadKnown(chk.ID)
 	sigs := make([]string, 0, len(m.Violations))
 	for k := range m.Violations {
